@@ -188,6 +188,46 @@ theorem parseMetadataAddressFromBech32_sound (s : String) (bz : Bytes) (hrp : St
         exact (Prod.mk.inj this).1.symm
     · cases h
 
+/-- **bech32 text → bytes → text without loss.**  For EVERY text `ParseMetadataAddressFromBech32`
+accepts, `String()` of the returned address is that text (lower-cased: `Decode` accepts an
+all-upper-case text and `Encode` writes lower case).  So on lower-case texts parse and `String()`
+are inverse bijections between accepted texts and well-formed addresses. -/
+theorem toString_fromBech32 (s : String) (bz : Bytes) (hrp : String)
+    (h : parseMetadataAddressFromBech32 s = some (bz, hrp)) :
+    toBech32 bz = some (String.ofList (s.toList.map lowerChar)) := by
+  have hv := (parseMetadataAddressFromBech32_sound s bz hrp h).2.1
+  unfold parseMetadataAddressFromBech32 at h
+  split at h
+  · cases h
+  · rename_i hrp' bz' hd
+    split at h
+    · split at h
+      · cases h
+      · have h' := Prod.mk.inj (Option.some.inj h)
+        rw [h'.1, h'.2] at hd
+        simp only [toBech32, hv]
+        exact convertAndEncode_of_decodeAndConvert s hrp bz hd
+    · cases h
+
+/-- `ConvertBits(·, 8, 5, true)` undoes `ConvertBits(·, 5, 8, false)` on 5-bit data (the
+unfinished group must be at most 4 zero bits, which is exactly what the padding restores). -/
+theorem convertBits_5_8_5 (data bz : Bytes) (hd : ∀ o ∈ data, o.toNat < 32)
+    (h : convertBits data 5 8 false = some bz) : convertBits bz 8 5 true = some data :=
+  Bech32Lemmas.convertBits_5_8_5 data bz hd h
+
+example : (∀ o ∈ ([0, 31, 16, 0] : Bytes), o.toNat < 32) ∧ convertBits [0, 31, 16, 0] 5 8 false = some [7, 224] := by
+  decide
+
+/-- A checksum that verifies is the one `Encode` writes (six 5-bit values are determined by the
+hrp and the data). -/
+theorem checksum_unique (hrp : List Char) (values cks : List Nat) (hl : cks.length = 6)
+    (hc : ∀ c ∈ cks, c < 32) (h : bech32Polymod hrp values cks = 1) : cks = bech32Checksum hrp values :=
+  Bech32Lemmas.checksum_unique hrp values cks hl hc h
+
+example : (bech32Checksum "a".toList []).length = 6 ∧ (∀ c ∈ bech32Checksum "a".toList [], c < 32) ∧
+    bech32Polymod "a".toList [] (bech32Checksum "a".toList []) = 1 :=
+  ⟨rfl, checksum_lt32 _ _, polymod_checksum _ _⟩
+
 /-- a text that satisfies the hypothesis: the scope address of the zero uuid -/
 example : ∃ s, toBech32 (⟨.scope, List.replicate 16 0, []⟩ : Parts).toBytes = some s ∧
     parseMetadataAddressFromBech32 s = some ((⟨.scope, List.replicate 16 0, []⟩ : Parts).toBytes, "scope") := by
